@@ -61,6 +61,10 @@ NEEDS = {
  "C20c-nested-writer-flattened": ("C20", ["C20"], "an indenting writer on top of another indenting writer with writes switching between the two in the middle of a line, or an inner prefix containing a line break"),
  "C18c-reset-after-early-return": ("C18", ["C18"], "a successful Process (or a read) fills the entry cache, then a load makes the next Process stop at linkage: the trees read afterwards are the stale ones"),
  "C19c-fields-of-type-global-map": ("C19", ["C19"], "two goroutines loading independent module sets while a node type is converted for the first time in the process: unsynchronised package-level map"),
+ "C01d-asrangeint-returns-value-with-error": ("C01", ["C01"], "decimal64 with fraction-digits 64 or 100 (out of range, low byte >= 64) and a range written with min/max only: division by pow10 = 0"),
+ "C02d-crlf-normalised-in-input": ("C02", ["C02"], "CR LF inside a single-quoted argument"),
+ "C03d-current-sorts-ast-revisions": ("C03", ["C03"], "a module with two or more revision statements not written newest first: registering the module sorts the AST field in place"),
+ "C08d-deviation-dedup-by-adjacency": ("C08", ["C08"], "a deviating module with a revision and another loaded module whose name extends its name with '-', '.' or a digit: its deviations are applied twice"),
  "C20b-empty-write-clears-partial": ("C20", ["C20"], "zero-length Write in the middle of a line clears the mid-line flag: the next Write gets a prefix inside the line"),
  "C20-early-out-continued-line": ("C20", ["C20"], "short write of 1..len(prefix) bytes on a Write that continues a partial line returns 0 although caller bytes were written"),
 }
